@@ -42,6 +42,23 @@ FitsBytes(x, n) == 8 * n >= NumBits + 1 \/ x < Pow2(8 * n)
 
 IsBit(b) == b \in {0, 1}
 
+\* ---- variable-length vectors (vec/vector_gadget.rs) ------------------------
+\* An AssignedVector with bound M and alignment A stores a payload of length l
+\* in a buffer of M cells: [front padding | payload | back padding], the back
+\* padding has size (A - l mod A) mod A, so that the payload starts on a
+\* multiple of A.  Vector operations carry their private inputs in the
+\* parameters: <<shape, n, l, d_1..d_l, l2, e_1..e_l2>> (shape 0: M = 8, A = 2,
+\* resize to 12; shape 1: M = 12, A = 4, resize to 16).
+VecM(sh) == IF sh = 0 THEN 8 ELSE 12
+VecA(sh) == IF sh = 0 THEN 2 ELSE 4
+VecL(sh) == IF sh = 0 THEN 12 ELSE 16
+BackPad(a, l) == (a - (l % a)) % a
+VecLims(m, a, l) == <<m - l - BackPad(a, l), m - BackPad(a, l)>>                  \* first position of data, one past the last
+VecFlags(m, a, l) == [i \in 1..m |-> IF (i - 1) >= VecLims(m, a, l)[1] /\ (i - 1) < VecLims(m, a, l)[2] THEN 0 ELSE 1]   \* 1 = padding
+VecInfo(m, a, l) == VecLims(m, a, l) \o VecFlags(m, a, l)
+VecData(pr) == SubSeq(pr, 4, 3 + pr[3])
+VecSecond(pr) == LET o == 4 + pr[3] IN SubSeq(pr, o + 1, o + pr[o])
+
 Dom(op, pr, x) ==
   CASE op = "div" -> x[2] # 0
     [] op = "inv" -> x[1] # 0
@@ -55,6 +72,7 @@ Dom(op, pr, x) ==
     [] op = "assert_lower_than_fixed" -> x[1] < pr[1]
     [] op = "range2" -> x[1] < pr[1] /\ x[1] < pr[2]
     [] op = "div_rem" -> pr[1] >= 1
+    [] op \in {"vec_trim", "vec_trim_only"} -> pr[2] <= pr[3]      \* cannot trim more than the payload
     [] OTHER -> TRUE
 
 Def(op, pr, x) ==
@@ -95,6 +113,12 @@ Def(op, pr, x) ==
     [] op = "div_rem" -> <<x[1] \div pr[1], x[1] % pr[1]>>
     [] op \in {"band", "bor", "bxor"} -> <<BitOp(op, x[1], x[2], pr[1])>>
     [] op = "bnot" -> <<Pow2(pr[1]) - 1 - x[1]>>
+    [] op = "vec_info" -> VecInfo(VecM(pr[1]), VecA(pr[1]), pr[3])
+    [] op = "vec_trim" -> VecInfo(VecM(pr[1]), VecA(pr[1]), pr[3] - pr[2])
+                          \o <<Bool(SubSeq(VecData(pr), pr[2] + 1, pr[3]) = VecSecond(pr))>>
+    [] op = "vec_trim_only" -> <<>>
+    [] op = "vec_eq" -> <<Bool(VecData(pr) = VecSecond(pr))>>
+    [] op = "vec_resize" -> VecInfo(VecL(pr[1]), VecA(pr[1]), pr[3]) \o <<Bool(VecData(pr) = VecSecond(pr))>>
 
 ---------------------------------------------------------------------------
 (* Scenario generation: every operation x parameter menu x boundary inputs *)
@@ -104,6 +128,21 @@ Half == (P - 1) \div 2
 NatIn == {0, 1, 2, 3, 5, 63, 64, 65, 127, 128, 255, 256, 257, 4095, 4096, 8191, 8192, Half, Half + 1, P - 2, P - 1, 37, 1000, 12000}
 Small == {0, 1, 2, 63, 64, 200, P - 1}
 Pairs == (Small \X Small) \cup {<<a, a>> : a \in NatIn} \cup {<<a, a + 1>> : a \in NatIn \ {P - 1}} \cup {<<a + 1, a>> : a \in NatIn \ {P - 1}}
+
+VecPayload(l) == [i \in 1..l |-> 10 + i]
+VecScenarios ==
+  UNION { { [op |-> "vec_info", params |-> <<sh, 0, l>> \o VecPayload(l), ins |-> <<>>] : l \in 0..VecM(sh) } : sh \in {0, 1} }
+  \* trimming: every payload length x every n (also beyond the payload: outside the domain)
+  \cup UNION { { [op |-> "vec_trim", params |-> <<sh, n, l>> \o VecPayload(l) \o <<IF n <= l THEN l - n ELSE 0>>
+                                               \o (IF n <= l THEN SubSeq(VecPayload(l), n + 1, l) ELSE <<>>), ins |-> <<>>] :
+                    l \in 0..VecM(sh), n \in 0..VecM(sh) } : sh \in {0, 1} }
+  \cup UNION { { [op |-> "vec_trim_only", params |-> <<sh, n, l>> \o VecPayload(l), ins |-> <<>>] :
+                    l \in 0..VecM(sh), n \in 0..VecM(sh) } : sh \in {0, 1} }
+  \cup UNION { UNION { { [op |-> "vec_eq", params |-> <<sh, 0, l>> \o VecPayload(l) \o <<l2>> \o w, ins |-> <<>>] :
+                            l \in {0, 1, 3, VecM(sh)}, w \in {VecPayload(l2), [i \in 1..l2 |-> IF i = l2 THEN 99 ELSE 10 + i]} } :
+                        l2 \in {0, 1, 3, VecM(sh)} } : sh \in {0, 1} }
+  \cup UNION { { [op |-> "vec_resize", params |-> <<sh, 0, l>> \o VecPayload(l) \o <<l>> \o VecPayload(l), ins |-> <<>>] :
+                    l \in 0..VecM(sh) } : sh \in {0, 1} }
 
 Scenarios ==
   { [op |-> o, params |-> <<>>, ins |-> <<a>>] : o \in {"neg", "inv", "inv0", "square", "is_zero", "sgn0"}, a \in NatIn }
@@ -127,6 +166,7 @@ Scenarios ==
   \cup { [op |-> "range2", params |-> <<b1, b2>>, ins |-> <<a>>] :
            b1 \in {200, 256, 100}, b2 \in {130, 128, 100, 255}, a \in {0, 99, 100, 127, 128, 129, 130, 150, 199, 200, 255} }
   \cup { [op |-> "div_rem", params |-> <<d>>, ins |-> <<a>>] : d \in {1, 2, 5, 256, 1000}, a \in NatIn }
+  \cup VecScenarios
 
 VARIABLE sc
 Init == sc \in Scenarios
